@@ -85,7 +85,23 @@ def fam_random(n, seed, modes=("solve",), allcfg=False, ca=None, heights=None):
             k += 1
 
 
+def fam_circuit(n, seed):
+    r = random.Random(seed)
+    k = 0
+    while k < n:
+        P = problems.random_problem(r, cap=130, flavour="circuit")
+        for cfg in ([problems.random_config(r, P)] if k % 4 else list(problems.all_configs(P, r))[::5]):
+            cfg = dict(cfg)
+            cfg["mode"] = r.choice(["solve", "solve", "min"])
+            cfg["var"] = r.randrange(len(P["vidx"]))
+            cfg["height"] = 16
+            cfg["ent"] = 1
+            yield P, cfg
+            k += 1
+
+
 FAMS = {
+    "circuit": fam_circuit,
     "core": fam_core,
     "pairs": fam_pairs,
     "random": lambda n, s: fam_random(n, s),
